@@ -248,12 +248,22 @@ def check_register_slots(rep, db, f, inst):
                 return
             continue
         nslots += 1
+        conds = q.conds_before(p, len(p.events))
+        # index terms known (by the path's conditions) to equal the trampoline's slot number: the slot may have been found by a
+        # run-time search and matched against the compile-time index afterwards
+        same = {C(slot)}
+        for c in conds:
+            if c[0] == "cmp" and c[1] == "==":
+                if c[2] == C(slot):
+                    same.add(c[3])
+                elif c[3] == C(slot):
+                    same.add(c[2])
+        ks = [(C(slot) if i in same else i, v) for i, v in ks]
+        cs = [(C(slot) if i in same else i, v) for i, v in cs]
         if ks != [(C(slot), key)] or cs != [(C(slot), cb)]:
             rep.violation(rule, site(f) + " [index agreement]", "trampoline<%d> is returned but key/interceptor are stored at %s / %s" % (slot, [(fmt(i), fmt(v)) for i, v in ks], [(fmt(i), fmt(v)) for i, v in cs]), f["loc"], inst)
             return
-        conds = q.conds_before(p, len(p.events))
-        free = ("cmp", "==", ("rd", ("idx", ("fld", THIS_OBJ, "callback_unique_keys"), C(slot))), C(0))
-        if free not in conds:
+        if not any(("cmp", "==", ("rd", ("idx", ("fld", THIS_OBJ, "callback_unique_keys"), ix)), C(0)) in conds for ix in same):
             rep.violation(rule, site(f), "slot %d is taken without testing that it is free" % slot, f["loc"], inst)
             return
         if not any(e.kind == "CALL" and q.short(e.a) in q.EXCLUSIVE_GUARDS for e in p.events):
@@ -311,7 +321,26 @@ def check_get_executed(rep, db, f, inst):
         if len(mp) != 1:
             rep.violation(rule, site(f), "result pair not built exactly once", f["loc"], inst)
             return
-        sb, key = argvals(mp[0])[:2]
+        def val(x):
+            # arguments bound to const references arrive as named locals: they stand for the value they hold
+            for _ in range(4):
+                if isinstance(x, tuple) and x[:1] in (("var",), ("tmp",)) and p.state.mem.get(x) is not None:
+                    x = p.state.mem.get(x)
+                else:
+                    break
+            return x
+        def norm(t, d=0):
+            """named locals inside a term stand for the values they hold"""
+            if not isinstance(t, tuple) or d > 8:
+                return t
+            if t[:1] == ("rd",) and isinstance(t[1], tuple) and t[1][:1] in (("var",), ("tmp",)) and p.state.mem.get(t[1]) is not None:
+                return norm(p.state.mem.get(t[1]), d + 1)
+            if t[:1] in (("var",), ("tmp",)) and p.state.mem.get(t) is not None and not isinstance(p.state.mem.get(t), dict):
+                return norm(p.state.mem.get(t), d + 1)
+            return tuple(norm(x, d + 1) if isinstance(x, tuple) else x for x in t)
+        sb, key = [norm(val(x)) for x in argvals(mp[0])[:2]]
+        if isinstance(key, tuple) and key[:1] in (("idx",), ("fld",)):
+            key = ("rd", key)  # an element bound to a const reference parameter: its value is what is stored in the pair
         if not fld_of(sb, "sandbox"):
             rep.violation(rule, site(f), "the sandbox reported is %s, not the per-thread sandbox" % fmt(sb), f["loc"], inst)
             return
@@ -334,6 +363,22 @@ def check_unregister_slots(rep, db, f, inst):
         if not ks and not cs:
             continue
         cleared += 1
+        # second idiom: the slot is located with std::find over the key table; the key is cleared through the iterator and the
+        # entry point at the iterator's distance from begin()
+        if not ks and len(cs) == 1:
+            def is_find(t):
+                return (isinstance(t, tuple) and t[:1] == ("ucall",) and q.short(t[2]) == "find" and len(t[3]) >= 3 and q.mentions(t[3][2], lambda x: x == key or (isinstance(x, tuple) and x[:2] == ("var", "P") and x[2] == key[1])) and
+                        all(q.mentions(a, lambda x: x == ("fld", THIS_OBJ, "callback_unique_keys")) for a in t[3][:2]))
+            via_it = [strip_casts(e.a[1]) for e in p.events if e.kind == "STORE" and e.b == C(0) and isinstance(e.a, tuple) and e.a[:1] == ("deref",) and is_find(strip_casts(e.a[1]))]
+            if len(via_it) == 1:
+                F = via_it[0]
+                dist_ok = q.mentions(cs[0], lambda x: isinstance(x, tuple) and x[:1] in (("ptrdiff",), ("bin",), ("lin",)) and q.mentions(x, lambda y: y == F))
+                conds = q.conds_before(p, len(p.events))
+                found_ok = any(q.mentions(c, lambda x: x == F) for c in conds)
+                if dist_ok and found_ok:
+                    continue
+                rep.violation(rule, site(f), "the entry point is not cleared at the position of the key found (%s)" % fmt(cs[0])[:100], f["loc"], inst)
+                return
         if len(ks) != 1 or ks != cs:
             rep.violation(rule, site(f), "key and interceptor are not cleared at one and the same index (%s vs %s)" % ([fmt(x) for x in ks], [fmt(x) for x in cs]), f["loc"], inst)
             return
